@@ -138,7 +138,8 @@ func NewEng(t *rapid.T, cfg EngCfg) *Eng {
 		}
 	}
 	fositeSession := rapid.Bool().Draw(t, "fositeSessionType")
-	e.w = h.NewWorld(h.Spec{Store: store, JWTAccess: jwt, FositeSession: fositeSession, RefreshScopes: refreshScopeSets[e.rsMode], Mutate: func(c *fosite.Config) {
+	legacyRevoker := cfg.Prop == "C08" && rapid.IntRange(0, 2).Draw(t, "legacyRevocationHandlerFirst") == 0
+	e.w = h.NewWorld(h.Spec{Store: store, JWTAccess: jwt, FositeSession: fositeSession, LegacyRevocationHandler: legacyRevoker, RefreshScopes: refreshScopeSets[e.rsMode], Mutate: func(c *fosite.Config) {
 		c.AuthorizeCodeLifespan = e.codeLife
 		c.AccessTokenLifespan = e.atLife
 		c.RefreshTokenLifespan = e.rtLife
@@ -151,6 +152,9 @@ func NewEng(t *rapid.T, cfg EngCfg) *Eng {
 			cfg.MutateDraw(t, c)
 		}
 	}})
+	if legacyRevoker {
+		e.label("second-revocation-handler-configured")
+	}
 	if e.w.Tx != nil && rapid.Bool().Draw(t, "revokeAnswersNotFoundWhenNothingMatched") {
 		// like SQL-backed stores: revoking by a request id that has no row left answers ErrNotFound
 		e.w.Tx.NotFoundOnEmptyRevoke = true
